@@ -144,6 +144,41 @@ def noncanonical_names_stage(c):
       break
 
 
+def grpc_backends_stage(c):
+  """The same histories through a gRPC server on top of each backend: the error translation sits between the
+  datastore's exception and the client (status codes), so the CLASS a client sees must not depend on how a backend
+  happens to raise (exception chaining, subclassing)."""
+  from vcheck import deploy, svcgen
+  hists = svcgen.matrix()[::3][: (10 if c.tier == 'quick' else 60)]
+  for _ in range(4 if c.tier == 'quick' else 40):
+    g = svcgen.Gen(c.rng, owners=('o',), sids=('s',), weights=WEIGHTS, fail_rate=0.1)
+    hists.append(g.history(c.rng.randrange(6, 18)))
+  for hi, h in enumerate(hists):
+    runs = {}
+    for be in ('ram', 'sqlmem'):
+      d = deploy.Deployment('grpc', be)
+      try:
+        rr = d.runner()
+        resps, snaps = [], []
+        for rq in h:
+          resps.append(deploy.canon_resp(rr.step(rq)))
+          snaps.append(rr.snapshot())
+        runs[be] = (resps, snaps)
+        c.traces += 1
+      finally:
+        d.close()
+    c.count(len(h), ('grpc-backends', hi) if any(r.get('k') == 'err' for r in runs['ram'][0]) else None, kind='grpc-backends-history')
+    for i, rq in enumerate(h):
+      a, b = runs['ram'][0][i], runs['sqlmem'][0][i]
+      if a != b or runs['ram'][1][i] != runs['sqlmem'][1][i]:
+        what = 'responses' if a != b else 'stored data'
+        c.prop_fail('backends-differ-behind-grpc:%s' % rq['op'],
+                    'behind a gRPC server the same call sequence gives different %s on the RAM and the SQL backend at step %d (%s): ram=%s sql=%s' % (
+                        what, i, rq['op'], json.dumps(a)[:160], json.dumps(b)[:160]),
+                    {'history': h[:i + 1], 'ram': {'resp': a, 'state': runs['ram'][1][i]}, 'sqlmem': {'resp': b, 'state': runs['sqlmem'][1][i]}})
+        break
+
+
 def run(c):
   # translator: the keys of every SQL query of sql_datastore.py, regenerated from the source (kernel-checked obligations)
   from vcheck import sqlkeyscheck
@@ -160,6 +195,7 @@ def run(c):
   n = 70 if c.tier == 'quick' else 800
   svccheck.differential(c, 'C07', n, backends, cfgs, weights=WEIGHTS, check_backends_equal=True,
                         lengths=(4, 24) if c.tier == 'quick' else (4, 40))
+  grpc_backends_stage(c)
   svc.cleanup()
   return c.finish(
       level='proof',
